@@ -24,6 +24,59 @@ def gen_cases(r, res, tabs, tier):
     return cases
 
 
+def state_matrix(r, res, tabs):
+    """Every model x every live thread state: the first enter event of the
+    model is accepted exactly in the states the model documents (running for
+    NODES/TAMPI/MPI/OpenMP, active for nOS-V/Nanos6, any for the kernel)."""
+    import emu_lib
+    import histories
+    out = []
+    paths = {"running": "", "cooling": "c", "paused": "p", "warming": "pw"}
+    for model in ["nosv", "nanos6", "nodes", "tampi", "mpi", "openmp", "kernel"]:
+        tab = tabs[model]
+        rows = [rw for rw in tab["table"] if rw[3] == 1 and (model not in histories.CATS or chr(rw[0]) in histories.CATS[model])]
+        for state, path in paths.items():
+            for row in (rows[:1] + [r.choice(rows)]):
+                require = {"ovni": tabs["ovni"]["version"], model: tab["version"]}
+                sysd = emu_lib.Sys([("node0", [(100, [10])], [0])], require)
+                w = histories.Walk2(r, sysd, {model: tab})
+                w.thread_op(0, "x")
+                for op in path:
+                    w.thread_op(0, op)
+                w.model_event(0, model, row)
+                if w.illegal:
+                    # complete the history as if the event had been accepted, so that an
+                    # implementation that wrongly accepts it ends with exit 0 (a concrete input)
+                    why = list(w.illegal)
+                    pops = [rw for rw in tab["table"] if rw[3] == 2 and rw[2] == row[2] and rw[4] == row[4]]
+                    if pops:
+                        w.emit(0, chr(tab["char"]) + chr(pops[0][0]) + chr(pops[0][1]))
+                    guard = 0
+                    while w.st[0] != "running" and guard < 3:
+                        guard += 1
+                        ops = [o for o in "rw" if w.st[0] in histories.LEGAL[o]]
+                        if not ops:
+                            break
+                        op = "r" if "r" in ops else "w"
+                        w.emit(0, "OH" + op)
+                        w.st[0] = histories.LEGAL[op][w.st[0]]
+                    w.emit(0, "OHe")
+                    w.illegal = why
+                if not w.illegal:
+                    # leave the region where the model allows it, then finish
+                    guard = 0
+                    while w.st[0] != "running" and guard < 3:
+                        guard += 1
+                        ops = w.legal_ops(0)
+                        w.thread_op(0, "r" if "r" in ops else "w")
+                    w.close_all(0)
+                    if "e" in w.legal_ops(0):
+                        w.thread_op(0, "e")
+                res.dist("case:state-matrix")
+                out.append((sysd, w.events, w.expected(), "; ".join(w.illegal)))
+    return out
+
+
 def check(res, tier, replay=None):
     res.cov["rule"] = ("per model random properly nested enter/leave words of the generated tables interleaved with thread state "
                        "changes, with single mismatched / re-entering / wrong-state steps and open regions at the end (lint), "
@@ -37,7 +90,7 @@ def check(res, tier, replay=None):
         r = vcommon.rng("c08")
         tabs = emu_props.load_tables()
         doc = emu_props.load_doc_tables(tabs)
-        cases = gen_cases(r, res, doc, tier)
+        cases = gen_cases(r, res, doc, tier) + state_matrix(r, res, doc)
 
         def orc(sysd, events, itl):
             # rows recomputed from the history with the DOCUMENTED event -> value mapping
